@@ -598,7 +598,7 @@ def snap_rot(b):
     vec = {}
     for n in names:
         v = b.p[n]
-        vec[n] = (type(v).__name__, None if v is None else (list(np.asarray(v, dtype=float).ravel()) if isinstance(v, (list, np.ndarray)) else v))
+        vec[n] = (type(v).__name__, None if v is None else (np.asarray(v, dtype=float).tolist() if isinstance(v, (list, np.ndarray)) else v))
     pins = []
     if b.spatialGrid is not None:
         try:
@@ -684,7 +684,7 @@ def assign_params(rng, core, tag):
         for nme in rng.sample(names, min(len(names), rng.randint(0, 3))):
             picks.append((nme, "scalar-" + lc))
     for nme in rng.sample(sorted(boundary_names(b0)), rng.randint(0, 4)):
-        picks.append((nme, rng.choice(["vec6-list", "vec6-array"])))
+        picks.append((nme, rng.choice(["vec6-list", "vec6-array", "vec6-table"])))  # table: one row per corner/edge (e.g. x group)
     for nme in rng.sample(AVG_ARRAYS, rng.randint(0, 2)):
         picks.append((nme, "avg-array"))
     for nme in rng.sample(PIN_ARRAYS, rng.randint(0, 2)):
@@ -709,6 +709,8 @@ def assign_params(rng, core, tag):
                 v = [nice_float(rng) for _ in range(6)]
             elif kind == "vec6-array":
                 v = np.array([nice_float(rng) for _ in range(6)])
+            elif kind == "vec6-table":
+                v = np.array([[nice_float(rng) for _ in range(ng)] for _ in range(6)])
             else:  # pin-array
                 v = np.array([abs(nice_float(rng)) for _ in range(max(1, len(b.getPinLocations()) if b.spatialGrid is not None else 3))])
             try:
